@@ -3,6 +3,7 @@ package lungo
 import (
 	"context"
 	"errors"
+	"time"
 
 	"go.mongodb.org/mongo-driver/bson"
 	"go.mongodb.org/mongo-driver/bson/primitive"
@@ -87,6 +88,47 @@ func H_C04_inc() {
 	engine.Close()
 }
 
+// two goroutines write through ONE session transaction: Transaction's own lock must serialise them
+func H_C04_shared() {
+	engine, client := mkEngine()
+	coll := client.Database("db").Collection("c")
+	init := vf.Int32("init")
+	vf.Assume(init > -1000 && init < 1000)
+	_, err := coll.InsertOne(bg, bson.D{{Key: "_id", Value: "ctr"}, {Key: "n", Value: init}})
+	vf.Assume(err == nil)
+	logBefore := len(stOplog(engine.Catalog()))
+	sess, _ := client.StartSession()
+	s := sess.(*Session)
+	vf.Assert(s.StartTransaction() == nil, "StartTransaction failed")
+	sctx := context.WithValue(bg, sessionKey{}, s)
+	for a := 0; a < 2; a++ {
+		a := a
+		vf.Go(func() {
+			if a == 0 || vf.Bool("bothInc") {
+				res, err := coll.UpdateOne(sctx, bson.D{{Key: "_id", Value: "ctr"}}, bson.D{{Key: "$inc", Value: bson.D{{Key: "n", Value: int32(1)}}}})
+				vf.Assert(err == nil && res.ModifiedCount == 1, "increment inside the shared transaction failed")
+			} else {
+				_, err := coll.InsertOne(sctx, bson.D{{Key: "_id", Value: "other"}})
+				vf.Assert(err == nil, "insert inside the shared transaction failed")
+			}
+		})
+	}
+	vf.WaitAll()
+	vf.Assert(s.CommitTransaction(bg) == nil, "commit failed")
+	both := vf.Bool("bothInc")
+	want := init + 1
+	if both {
+		want = init + 2
+	}
+	vf.Assert(getN(coll) == want, "a write made through a shared session transaction was lost")
+	vf.Assert(len(stOplog(engine.Catalog()))-logBefore == 2, "the change log does not hold one event per write of the shared transaction")
+	if !both {
+		n, _ := coll.CountDocuments(bg, bson.D{})
+		vf.Assert(n == 2, "the insert made through the shared transaction was lost")
+	}
+	engine.Close()
+}
+
 // ---------- C16: the writer slot is always freed, no deadlock, shutdown completes ----------
 
 var errBoom = errors.New("boom")
@@ -105,10 +147,16 @@ func H_C16_protocol() {
 	closed := false
 	for a := 0; a < actors; a++ {
 		as := string(rune('0' + a))
-		kind := vf.Choice("kind"+as, 7)
+		kind := vf.Choice("kind"+as, 8)
+		if a == 0 && vf.Param("k0", -1) >= 0 {
+			kind = vf.Param("k0", -1)
+		}
 		if a > 0 && vf.Param("partners", 0) == 2 {
-			// quick tier: every kind of actor against a plain writer and against shutdown
+			// every kind of actor against a plain writer and against shutdown
 			kind = []int{0, 6}[vf.Choice("partner"+as, 2)]
+		} else if a > 0 && vf.Param("partners", 0) == 1 {
+			// quick tier: every kind of actor against a plain writer
+			kind = 0
 		}
 		vf.Go(func() {
 			switch kind {
@@ -163,6 +211,16 @@ func H_C16_protocol() {
 			case 6: // shutdown
 				engine.Close()
 				closed = true
+			case 7: // one session used from two goroutines: start a transaction while the session is ended
+				sess, _ := client.StartSession()
+				s := sess.(*Session)
+				vf.Go(func() { s.EndSession(bg) })
+				if err := s.StartTransaction(); err == nil {
+					sctx := context.WithValue(bg, sessionKey{}, s)
+					coll.InsertOne(sctx, bson.D{{Key: "k", Value: int32(7)}})
+					s.CommitTransaction(bg)
+					s.EndSession(bg)
+				}
 			}
 		})
 	}
@@ -278,12 +336,9 @@ func H_C09_lost() {
 	// retention removes the stream's position
 	txn, err := engine.Begin(bg, true)
 	vf.Assert(err == nil, "Begin failed")
-	cat := txn.Catalog().Clone()
-	lg := cat.Namespaces[Oplog].Clone()
-	lg.Documents.Remove(lg.Documents.List[0])
-	cat.Namespaces[Oplog] = lg
-	txn.catalog = cat
-	txn.dirty = true
+	// the real retention code: keep at most one event, no age protection
+	txn.Clean(0, 1, 0, time.Hour)
+	vf.Assert(len(stOplog(txn.Catalog())) == 1, "retention did not trim the oplog as configured")
 	vf.Assert(engine.Commit(txn) == nil, "Commit failed")
 	vf.Assert(!stream.TryNext(bg), "the stream skipped over discarded events")
 	vf.Assert(stream.Err() == ErrLostOplogPosition, "no lost-position error after retention discarded the stream's position")
